@@ -42,9 +42,9 @@ func init() { families["reattach"] = runReattach }
 
 func genReattach(o opts) []raCase {
 	r := hk.Rng(o.seed + 103)
-	n := 30
+	n := 34
 	if o.tier == "thorough" {
-		n = 306
+		n = 310
 	}
 	var cs []raCase
 	for _, pr := range []string{"netrpc", "grpc"} {
@@ -52,6 +52,9 @@ func genReattach(o opts) []raCase {
 			raCase{Proto: pr, Kind: "directed-basic", Ops: []raOp{{0, 0, 0}, {2, 0, 7}, {1, 0, 0}, {3, 1, 0}, {1, 1, 0}, {3, 2, 0}, {4, 2, 0}, {7, 0, 0}, {1, 0, 0}}},
 			raCase{Proto: pr, Kind: "directed-test-mode", Ops: []raOp{{0, 1, 0}, {1, 0, 0}, {2, 1, 5}, {1, 1, 0}, {4, 2, 0}, {7, 0, 0}, {3, 0, 0}, {6, 0, 0}, {7, 0, 0}, {1, 0, 0}}},
 			raCase{Proto: pr, Kind: "directed-die", Ops: []raOp{{0, 0, 0}, {1, 0, 0}, {5, 0, 0}, {7, 0, 0}, {1, 0, 0}, {3, 1, 0}}},
+			// a failed attach stays failed: Start, Client and the accessors once more on the client whose attach found nothing
+			raCase{Proto: pr, Kind: "directed-start-again", Ops: []raOp{{0, 0, 0}, {4, 0, 0}, {1, 0, 0}, {8, 1, 0}, {8, 1, 0}, {3, 1, 0}, {8, 0, 0}}},
+			raCase{Proto: pr, Kind: "directed-start-again-test", Ops: []raOp{{0, 1, 0}, {6, 0, 0}, {1, 0, 0}, {8, 1, 0}, {3, 1, 0}, {8, 1, 0}}},
 			raCase{Proto: pr, Kind: "directed-linger", Linger: true, Ops: []raOp{{0, 0, 0}, {1, 0, 0}, {2, 1, 9}, {4, 1, 0}, {7, 0, 0}, {1, 0, 0}}},
 			raCase{Proto: pr, Kind: "directed-linger-foreign", Linger: true, Foreign: true, Ops: []raOp{{0, 0, 0}, {3, 0, 0}, {1, 0, 0}, {4, 1, 0}, {7, 0, 0}, {1, 1, 0}}},
 			raCase{Proto: pr, Kind: "directed-foreign", Foreign: true, Ops: []raOp{{0, 0, 0}, {2, 0, 7}, {1, 0, 0}, {3, 1, 0}, {7, 0, 0}, {4, 1, 0}, {7, 0, 0}, {1, 0, 0}}},
@@ -70,7 +73,7 @@ func genReattach(o opts) []raCase {
 				test = append(test, t)
 				continue
 			}
-			switch r.Intn(9) {
+			switch r.Intn(10) {
 			case 0, 1, 2:
 				c.Ops = append(c.Ops, raOp{1, r.Intn(ncl), 0})
 				ncl++
@@ -87,6 +90,8 @@ func genReattach(o opts) []raCase {
 				} else {
 					c.Ops = append(c.Ops, raOp{5, i, 0})
 				}
+			case 8:
+				c.Ops = append(c.Ops, raOp{8, r.Intn(ncl), 0})
 			default:
 				c.Ops = append(c.Ops, raOp{7, r.Intn(nin), 0})
 			}
@@ -144,6 +149,11 @@ func runOneReattach(c raCase) (sx.V, sx.V) {
 		}
 		ch := make(chan res, 1)
 		go func() {
+			defer func() {
+				if r := recover(); r != nil {
+					ch <- res{vp.Resp{}, fmt.Errorf("panic: %v", r)}
+				}
+			}()
 			cl, err := caller(i)
 			if err != nil {
 				ch <- res{vp.Resp{}, err}
@@ -276,6 +286,13 @@ func runOneReattach(c raCase) (sx.V, sx.V) {
 				case <-insts[op.A].closeCh:
 				case <-time.After(5 * time.Second):
 				}
+			}
+		case 8:
+			var serr error
+			if !within(10*time.Second, func() { _, serr = clients[op.A].Start() }) {
+				out = -9
+			} else if serr == nil {
+				out = 1
 			}
 		case 7:
 			it := insts[op.A]
